@@ -1,5 +1,7 @@
 """C13 — overlap removal returns a conflict-free sub-list (DESIGN.md section 4, C13)."""
 import json
+import re
+import subprocess
 import os
 
 from . import common, corpus
@@ -43,8 +45,10 @@ def validate(v, trace, name):
             line, reason = rej[0], rej[1]
             e = evs[line - 1]
             spans = [[x["s"], x["e"]] for x in e.get("in", [])]
-            v.failure({"kind": "postcondition", "reason": reason, "in": spans},
-                      {"event": e, "how": "hv c13 --cases <file with the 'in' list>"})
+            sig = {"kind": "postcondition", "reason": reason, "in": spans}
+            if e.get("src") in ("cli", "wasm"):
+                sig = {"kind": "postcondition", "reason": reason, "reported_by": e["src"], "single_rule": len(e.get("rules") or []) == 1}
+            v.failure(sig, {"event": e, "how": "hv c13 --cases <file with the 'in' list>; reported_by cli: harper-cli lint doc.md [-o rule]... on event.text"})
         for e in evs:
             if e.get("ev") == "Panic":
                 v.failure({"kind": "panic", "loc": common_panic_loc(e["loc"])},
@@ -55,6 +59,123 @@ def validate(v, trace, name):
 def common_panic_loc(desc):
     parts = desc.split(":")
     return ":".join(parts[:2])
+
+
+CLI_BIN = os.path.join(common.HARNESS, "target", "release", "harper-cli-real")
+ANSI = re.compile(r"\x1b\[[0-9;]*m")
+RUNS = ["the the the", "in in in in", "teh teh teh", "is is is a an", "an an apple", "a a a", "very very very", "to to too",
+        "there there their", "THE THE the", "that that that that", "it it it it it"]
+RULES = ["RepeatedWords", "SpellCheck", "AnA", "SentenceCapitalization", "LongSentences", "Spaces", "CompoundNouns", "Matcher",
+         "UnclosedQuotes", "CorrectNumberSuffix", "WrongQuotes", "PronounContraction"]
+
+
+def read_report(text, report):
+    """[(hook column, message)] of a `harper-cli lint` report on a one-line ASCII document, or None when it cannot be read."""
+    lines = ANSI.sub("", report).splitlines()
+    src = [i for i, l in enumerate(lines) if re.match(r"\s*1 │ ", l)]
+    if len(src) != 1:
+        return None
+    off = lines[src[0]].index("│") + 2
+    if lines[src[0]][off:].rstrip() != text.rstrip():
+        return None
+    out = []
+    for l in lines[src[0] + 1:]:
+        m = re.search(r"╰─+ (.*)$", l)
+        if m:
+            out.append((l.index("╰") - off, m.group(1).rstrip()))
+    hooks = lines[src[0] + 1].count("┬") if len(lines) > src[0] + 1 else 0
+    if hooks != len(out):
+        return None        # two labels hanging from one column, or a layout this reader does not know
+    return out
+
+
+def cli_stage(v, wd, corp, trace, njobs):
+    """The lints the command-line tool reports are overlap removal applied to what its rules produced:
+    the report of the real harper-cli binary is read back (label hook = middle of the span, message) and
+    matched against the raw lints of the same pipeline; the result joins the trace as Case events."""
+    import random
+    rng = random.Random(v.seed)
+    sentences = [json.loads(l) for l in open(corp)]
+    sentences = [x for x in sentences if x.isascii() and "\n" not in x and "\t" not in x and 10 <= len(x) <= 90] or ["This is a sentence."]
+    jobs = []
+    for k in range(njobs):
+        ws = rng.choice(sentences).split(" ")
+        at = rng.randrange(len(ws) + 1)
+        text = " ".join(ws[:at] + [rng.choice(RUNS)] + ws[at:])
+        if k % 3 == 2:
+            text += " " + rng.choice(RUNS) + "."
+        m = k % 5
+        rules = None if m == 0 else ["RepeatedWords"] if m == 1 else [rng.choice(RULES)] if m == 2 else rng.sample(RULES, 2 if m == 3 else 4)
+        if m >= 3 and "RepeatedWords" not in rules and k % 2:
+            rules[0] = "RepeatedWords"
+        jobs.append({"text": text, "rules": rules, "dialect": ["American", "British"][k % 2]})
+    jf = os.path.join(wd, "cli_jobs.ndjson")
+    with open(jf, "w") as f:
+        for j in jobs:
+            f.write(json.dumps(j) + "\n")
+    rc, out, err = common.run_hv(["c13cli", "--jobs", jf], timeout=1800)
+    if rc != 0:
+        raise common.ToolError("hv c13cli failed: " + err[-1500:])
+    raws = [json.loads(l) for l in out.splitlines() if l.strip()]
+    if len(raws) != len(jobs):
+        raise common.ToolError("hv c13cli: wrong number of answers")
+
+    def one(k):
+        j = jobs[k]
+        d = os.path.join(wd, f"cli_{k}")
+        os.makedirs(os.path.join(d, "fd"), exist_ok=True)
+        open(os.path.join(d, "ud.txt"), "w").close()
+        with open(os.path.join(d, "doc.md"), "w") as f:
+            f.write(j["text"] + ("\n" if k % 2 else ""))
+        args = [CLI_BIN, "lint", "doc.md", "-u", "ud.txt", "-f", "fd", "-d", j["dialect"]]
+        for r in j["rules"] or []:
+            args += ["-o", r]
+        p = subprocess.run(args, cwd=d, stdout=subprocess.PIPE, stderr=subprocess.PIPE, text=True, timeout=120,
+                           env=dict(os.environ, HOME=d, XDG_CONFIG_HOME=d, XDG_DATA_HOME=d))
+        return p.returncode, p.stdout, p.stderr
+    from concurrent.futures import ThreadPoolExecutor
+    with ThreadPoolExecutor(max_workers=8) as ex:
+        results = list(ex.map(one, range(len(jobs))))
+    n_read = n_unread = n_overlapping_raw = 0
+    with open(trace, "a") as f:
+        for j, raw, (rc, so, se) in zip(jobs, raws, results):
+            if "panic" in raw:
+                continue
+            raw = raw["raw"]
+            if "panicked at" in se:
+                f.write(json.dumps({"ev": "Panic", "src": "cli", "text": j["text"], "loc": se[-300:]}) + "\n")
+                continue
+            if "No lints found" in so:
+                rep = []
+            else:
+                rep = read_report(j["text"], so)
+            if rep is None:
+                n_unread += 1
+                continue
+            # each reported label -> the raw lints with that message and that middle
+            outl, used, ok = [], set(), True
+            for col, msg in rep:
+                c = [i for i, x in enumerate(raw) if i not in used and x["msg"] == msg and max((x["s"] + x["e"]) // 2, x["s"]) == col]
+                spans = {(raw[i]["s"], raw[i]["e"]) for i in c}
+                if len(spans) > 1:
+                    ok = False      # two different spans fit this label: not decidable from the report
+                    break
+                if c:
+                    used.add(c[0])
+                    outl.append({"id": c[0] + 1, "s": raw[c[0]]["s"], "e": raw[c[0]]["e"], "dig": "m"})
+                else:
+                    outl.append({"id": 0, "s": col, "e": col + 1, "dig": "?"})
+            if not ok:
+                n_unread += 1
+                continue
+            n_read += 1
+            inl = [{"id": i + 1, "s": x["s"], "e": x["e"], "dig": "m"} for i, x in enumerate(raw)]
+            if any(a["s"] < b["e"] and b["s"] < a["e"] for i, a in enumerate(raw) for b in raw[i + 1:]):
+                n_overlapping_raw += 1
+            f.write(json.dumps({"ev": "Case", "src": "cli", "in": inl, "out": outl, "text": j["text"], "rules": j["rules"] or []}) + "\n")
+    if n_read < njobs // 2:
+        raise common.ToolError(f"harper-cli reports: only {n_read} of {njobs} could be read back")
+    v.cov["cli_reports"] = {"read_back": n_read, "not_decidable": n_unread, "with_overlapping_raw_lints": n_overlapping_raw}
 
 
 def run(v):
@@ -81,9 +202,10 @@ def run(v):
     trace = os.path.join(wd, "trace.ndjson")
     rc, out, err = common.run_hv(["c13", "--cases", cases, "--out", trace, "--seed", v.seed,
                                   "--random", 200000 if thorough else 20000,
-                                  "--corpus", corp, "--docs", 5000 if thorough else 600])
+                                  "--corpus", corp, "--docs", 5000 if thorough else 600, "--wasm-docs", 3000 if thorough else 400])
     if rc != 0:
         raise common.ToolError("hv c13 failed: " + err[-2000:])
+    cli_stage(v, wd, corp, trace, 400 if thorough else 60)
     # (T)
     nontriv = validate(v, trace, "t")
     v.cov["distinct_nontrivial"] = nontriv
